@@ -75,6 +75,8 @@ def run(ctx):
             lambda: gens.setdefault("xcases", ctx.tlc("EvmGasState", cfg="EvmGasState_x.cfg", workers=2)),
             lambda: gens.setdefault("calls", ctx.tlc("EvmGasGen", cfg="EvmGasGen_calls.cfg", workers=2)),
             lambda: gens.setdefault("mem", ctx.tlc("EvmGasGen", cfg="EvmGasGen_mem.cfg", workers=2)),
+            lambda: gens.setdefault("loop", ctx.tlc("EvmGasGen", cfg="EvmGasGen_loop.cfg", workers=2)),
+            lambda: gens.setdefault("layout", ctx.tlc("EvmGasGen", cfg="EvmGasGen_layout.cfg" if quick else "EvmGasGen_layout_full.cfg", workers=2)),
             lambda: mc.setdefault("gas", ctx.tlc("EvmGas", cfg="EvmGas.cfg", workers=2, coverage=not quick)),
             lambda: built.setdefault("drv", ctx.build("c11"))]
     if not quick:
@@ -83,19 +85,27 @@ def run(ctx):
     drv = built["drv"]
     # TLC-generated inputs: sequences of two call instructions (kinds x gas-argument classes incl. 0 x value x callee
     # behaviour) and the cross product of memory operand classes for every instruction with a memory operand
-    script = {"calls": [], "mem": []}
+    script = {"calls": [], "mem": [], "loops": [], "layouts": []}
+    for raw in ctx.tlc_lines(gens["loop"], "CALLS"):
+        script["loops"].append(json.loads(raw.strip()[1:-1].replace('\\"', '"')))
+    for raw in ctx.tlc_lines(gens["layout"], "LAYOUT"):
+        script["layouts"].append(json.loads(raw.strip()[1:-1].replace('\\"', '"')))
     for raw in ctx.tlc_lines(gens["calls"], "CALLS"):
         script["calls"].append(json.loads(raw.strip()[1:-1].replace('\\"', '"')))
     for raw in ctx.tlc_lines(gens["mem"], "MEM"):
         script["mem"].append(json.loads(raw.strip()[1:-1].replace('\\"', '"')))
-    if not script["calls"] or not script["mem"]:
+    if not script["calls"] or not script["mem"] or not script["loops"] or not script["layouts"]:
         raise Inconclusive("EvmGasGen produced no inputs")
     if quick:
         # every pair with a zero gas argument, every third of the others
         zero = [c for c in script["calls"] if any(x["gas"] == "0" for x in c)]
         rest = [c for c in script["calls"] if not any(x["gas"] == "0" for x in c)]
         script["calls"] = zero + rest[ctx.seed % 3::3]
-    log("EvmGasGen: %d call sequences, %d memory operand cases" % (len(script["calls"]), len(script["mem"])))
+    log("EvmGasGen: %d call sequences, %d looped calls, %d memory operand cases, %d code layouts"
+        % (len(script["calls"]), len(script["loops"]), len(script["mem"]), len(script["layouts"])))
+    # the looped calls (value classes up to 2^256-1) also run under the x30 configuration
+    sp_b = os.path.join(ctx.scratch, "script_b.json")
+    json.dump({"calls": [], "mem": [], "layouts": [], "loops": script["loops"]}, open(sp_b, "w"))
     sp = os.path.join(ctx.scratch, "script.json")
     json.dump(script, open(sp, "w"))
 
@@ -122,7 +132,7 @@ def run(ctx):
         traces.append(tp)
         tables.append(jt)
         argvs.append([drv, "--out", tp, "--scratch", os.path.join(ctx.scratch, "st%d" % k), "--runs", str(runs)] +
-                     (["--script", sp] if k == 0 else []) + [
+                     (["--script", sp] if k == 0 else (["--script", sp_b] if cfg == "b" and not any(sp_b in a for a in argvs) else [])) + [
                       "--salt", str(k), "--config", cfg, "--jumptable", jt, "--deep", str(deep),
                      "--precompiles", str(pre), "--maxsteps", "200" if quick else "300"])
     state_traces = []
@@ -180,6 +190,8 @@ def run(ctx):
         "transitions": sum(r["generated"] for r in list(mc.values()) + list(gens.values())),
         "tlc_generated_call_sequences": len(script["calls"]),
         "tlc_generated_memory_cases": len(script["mem"]),
+        "tlc_generated_looped_calls": len(script["loops"]),
+        "tlc_generated_code_layouts": len(script["layouts"]),
         "extension_state_access": {
             "rule_set_active": "Istanbul-era constants (SLOAD 800, account reads 700, CALL family 700 + 9000 value + 25000 new account, "
                                "63/64 forwarding, 2300 stipend), SSTORE flat 20000 without net metering / refunds / sentry, EIP-2929 not "
